@@ -1,0 +1,8 @@
+//go:build !verif
+
+package ddperror
+
+import "github.com/DDP-Projekt/Kompilierer/src/token"
+
+// instrumentation point for external verification tooling, no-op without the build tag verif
+func verifRecordSite(Code, token.Range, string) {}
